@@ -306,7 +306,7 @@ def _alignment(ck: Check, repo: Repo, fn: Fn) -> None:
     cfg = CFG(fn.node)
     label = fn.qualname
     samp = [c for c in calls_in(fn.node) if call_name(c).split(".")[-1] == "get_experiences_samples"]
-    ck.floor("C17.4", len(samp), 1, f"{label}: minibatch sampling call")
+    ck.floor("C17.4", len(samp), 1, f"{label}: minibatch sampling call", fn=fn)
     lay = Layout(fn, cfg, "IPPO" in label)
     for c in samp:
         n = cfg.node_of(c)
@@ -333,7 +333,7 @@ def _rollout(ck: Check, repo: Repo, fn: Fn) -> None:
     cfg = CFG(fn.node)
     label = fn.qualname
     steps = [c for c in calls_in(fn.node) if call_name(c) == "env.step"]
-    ck.floor("C17.3", len(steps), 1, f"{label}: env.step call")
+    ck.floor("C17.3", len(steps), 1, f"{label}: env.step call", fn=fn)
     sn = cfg.node_of(steps[0])
     # the innermost loop around env.step
     loops = [l for l in cfg.live_nodes() if l.kind == "for" and any(x is steps[0] for x in ast.walk(l.ast))]
@@ -341,7 +341,7 @@ def _rollout(ck: Check, repo: Repo, fn: Fn) -> None:
     body = {n.id for n in cfg.live_nodes() if n.stmt is not None and any(x is n.stmt for b in L.ast.body for x in ast.walk(b))}
     # appends of the done flag
     apps = [c for c in calls_in(L.ast) if last_attr(c) == "append" and "dones" in ast.unparse(c.func.value)]
-    ck.floor("C17.3", len(apps), 1, f"{label}: append of the done flag")
+    ck.floor("C17.3", len(apps), 1, f"{label}: append of the done flag", fn=fn)
     for c in apps:
         n = cfg.node_of(c)
         arg = c.args[0]
@@ -367,7 +367,7 @@ def _rollout(ck: Check, repo: Repo, fn: Fn) -> None:
           f"{label}: next_done is termination OR truncation of the step just taken")
     # what is handed to learn: position 4 = the list of stored flags, position 7 = the latest next_done
     learns = [c for c in calls_in(fn.node) if call_name(c) == "agent.learn"]
-    ck.floor("C17.3", len(learns), 1, f"{label}: agent.learn call")
+    ck.floor("C17.3", len(learns), 1, f"{label}: agent.learn call", fn=fn)
     for c in learns:
         n = cfg.node_of(c)
         a0 = c.args[0]
